@@ -252,7 +252,7 @@ func runPRF(w *vt.Writer, full bool) {
 	for _, h := range hashes {
 		for si, s := range salts(h) {
 			for ki, kl := range []int{32, 33, 64, 65, 128, 129, 200} {
-				if (ki+si+seed)%3 != 0 && !(full && (ki+si)%2 == 0) {
+				if (ki+si+seed)%3 != 0 && !(full && (ki+si)%3 == 1) {
 					continue
 				}
 				c := dpk.PRFCfg{Alg: "HKDF", Hash: h, Salt: s.Salt, SaltNil: s.SaltNil, Key: keyOf(kl)}
@@ -293,7 +293,7 @@ func runPRF(w *vt.Writer, full bool) {
 		mx := maxLen(pl.c)
 		var ins []int
 		for ii, l := range inLens {
-			if full || (ii+ci)%5 == 0 || l == 0 && ci%3 == 0 {
+			if full && ((ii+ci)%2 == 0 || l == 0 || l == 64 || l == 128) || (ii+ci)%5 == 0 || l == 0 && ci%3 == 0 {
 				ins = append(ins, l)
 			}
 		}
@@ -317,15 +317,23 @@ func runPRF(w *vt.Writer, full bool) {
 				}
 				continue
 			}
-			ls := hkdfLens(pl.c.Hash, r, full && ii%6 == 0)
-			for li, n := range ls {
-				if full || (li+ii+ci)%3 == 0 || int(n) >= 254*digest[pl.c.Hash] && int(n) <= 256*digest[pl.c.Hash] && (ii+ci)%2 == 0 {
-					c.compute("len", in, n)
-				}
-			}
+			// HKDF: boundary set plus sample of output lengths (every length 0..3*hLen+1 on a quarter of the inputs in the
+			// thorough tier); outputs longer than 20*hLen only for one input per key (two in the thorough tier)
 			d := uint32(digest[pl.c.Hash])
+			ls := hkdfLens(pl.c.Hash, r, full && ii%4 == 0)
+			bigHere := ii == ci%len(ins) || full && ii == (ci+1)%len(ins)
+			for li, n := range ls {
+				isBig := n > 20*d && n <= 255*d
+				if isBig && !bigHere || !isBig && !full && (li+ii+ci)%3 != 0 {
+					continue
+				}
+				c.compute("len", in, n)
+			}
 			for _, pr := range [][2]uint32{{0, 1}, {1, d}, {d - 1, d}, {d, d + 1}, {d + 1, 2*d + 1}, {uint32(r.Intn(int(d) * 4)), 4*d + 7}, {d, 255 * d}, {255*d - 1, 255 * d}} {
-				if full || (int(pr[1])+ii+ci)%2 == 0 {
+				if pr[1] > 20*d && !bigHere {
+					continue
+				}
+				if full || bigHere || (int(pr[1])+ii+ci)%2 == 0 {
 					c.prefix(in, pr[0], pr[1])
 				}
 			}
@@ -499,7 +507,7 @@ func runHKDF(w *vt.Writer, full bool) {
 			for n := 0; n <= 4*d+1; n++ {
 				lens = append(lens, n)
 			}
-			for i := 0; i < 40; i++ {
+			for i := 0; i < 8; i++ {
 				lens = append(lens, r.Intn(255*d))
 			}
 		} else {
@@ -510,7 +518,7 @@ func runHKDF(w *vt.Writer, full bool) {
 		for si, sl := range []int{-1, 0, 1, d - 1, d, d + 1, 2*d + 5, 200} {
 			for ii, il := range []int{-1, 0, 1, 16, d, 100, 1000} {
 				for ki, kl := range []int{0, 1, 16, 32, d, 2*d + 1, 200} {
-					if !full && (si+ii+ki+int(vt.Seed()))%4 != 0 {
+					if !full && (si+ii+ki+int(vt.Seed()))%4 != 0 || full && (si+ii+ki+int(vt.Seed()))%3 != 0 {
 						continue
 					}
 					salt, info := []byte{}, []byte{}
@@ -522,7 +530,11 @@ func runHKDF(w *vt.Writer, full bool) {
 					}
 					key := content(r, kl, ki+si+ii)
 					for li, n := range lens {
-						if full || (li+si+ii+ki)%3 == 0 || n >= 254*d && n <= 256*d && (li+ki)%2 == 0 {
+						big := n > 20*d && n <= 255*d
+						if big && (si+ii+ki)%(4*3) != 0 && !(full && (si+ii+ki)%(2*3) == 0) {
+							continue // long outputs on a subset of the (salt, info, key) classes
+						}
+						if full || big || (li+si+ii+ki)%3 == 0 || n > 255*d && (li+ki)%2 == 0 {
 							hkdfCall(w, "len", h, key, salt, info, sl < 0, il < 0, uint32(n))
 						}
 					}
